@@ -2,7 +2,7 @@
    Full-strength statement: C04 (see DESIGN.md section 7) (Cluster/Statements.v). Proved so far: the theorems below; what is
    not yet proved is decided on every run by the lock-step co-simulation (model = implementation on every
    explored schedule) together with the monitors run on the implementation's own observations. *)
-From RaftV Require Import Cluster.Statements Proofs.RVSpec Proofs.AESpec.
+From RaftV Require Import Cluster.Statements Proofs.RVSpec Proofs.AESpec Proofs.CommitSpec Proofs.ReplySpec.
 Open Scope N_scope.
 
 (* becomeFollower (every term change, every step-down) never touches the commit index, the applied index, the
@@ -10,3 +10,26 @@ Open Scope N_scope.
 Theorem C04_step_down_frame : forall now n l t, vol (become_follower now n l t) = vol n.
 Proof. exact vol_become_follower. Qed.
 Print Assumptions C04_step_down_frame.
+
+(* commitLoop, for every node state: the commit index only moves forward, only on a leader, and only to an entry of
+   the leader's own term whose index a majority of the voters of its configuration have acknowledged (matchIndex),
+   the leader counting itself only if it is a voter (fix D22). *)
+Theorem C04_commit_needs_voter_majority : forall now n,
+  let n' := lp_commit now n in
+  n_commit n <= n_commit n' /\
+  (n_commit n < n_commit n' ->
+   n_role n = Leader /\
+   exists e, In e (n_log n) /\ e_index e = n_commit n' /\ e_term e = n_term n /\
+             has_quorum (conf_of n) (count_matches n (e_index e)) = true).
+Proof. exact lp_commit_spec. Qed.
+Print Assumptions C04_commit_needs_voter_majority.
+
+(* sendAppendEntries after the RPC, for every leader state and every reply: the matchIndex of a follower changes only
+   through a SUCCESS reply of that follower to a request sent in the CURRENT term (fix D1), and becomes prev + len. *)
+Theorem C04_match_index_only_by_current_term_success : forall now n rid peer g q r p,
+  let n' := fst (l_ae_reply now n rid peer g q r) in
+  fm n' p <> fm n p ->
+  p = peer /\ aer_success r = true /\ ae_term q = n_term n /\ n_role n = Leader /\ aer_term r <= n_term n /\
+  fm n' p = ae_prev_index q + N.of_nat (length (ae_entries q)).
+Proof. exact ae_reply_match. Qed.
+Print Assumptions C04_match_index_only_by_current_term_success.
